@@ -119,4 +119,40 @@ theorem loaded_ld_const_runs (m m' : Machine) (img : List Byte) (ss : Stacksize)
     ∃ n, 0 < n ∧ AtFetch (Core.iter n c) { (a.setReg r.num (BitVec.ofNat 8 v)) with pc := a.pc + 3 } :=
   ld_const_runs c a hf hint tbl 0 r v bs hr he (holds_after_load m m' img ss ps hl bs rest himg a hb hpc)
 
+
+/-- `CALL label`, as assembled, pushes the return address and continues at the label on the micro-machine. -/
+theorem call_runs (c : Core) (a : Arch) (h : AtFetch c a) (hint : c.pendInt = false)
+    (tbl : Labels) (cur : Nat) (l : String) (t : Nat) (bs : List Nat) (ht : tbl.find (lower l) = some t)
+    (hram : (a.pc + 1#8).toNat < 240) (hsp : a.sp - 1#8 ≠ a.pc + 1#8)
+    (he : Ref.encode tbl cur (.call l) = some bs) (hm : Holds a 0 bs) :
+    ∃ n, 0 < n ∧ AtFetch (Core.iter n c) { (push a (a.pc + 2)) with pc := BitVec.ofNat 8 t } := by
+  have hs := call_semantics a tbl cur l t bs ht hram hsp he hm
+  have hc : Covered a := by
+    simp [Ref.encode, ht] at he
+    subst he; simp only [Holds] at hm; obtain ⟨h0, -⟩ := hm
+    simp [Arch.rd] at h0
+    left; rw [h0]; decide
+  obtain ⟨n, a', hn, hstep, hf, _⟩ := isa_refines c a h hint hc
+  rw [hs] at hstep
+  cases hstep
+  exact ⟨n, hn, hf⟩
+
+/-- `JR label`, as assembled at address `cur`, continues at the label on the micro-machine. -/
+theorem jr_runs (c : Core) (a : Arch) (h : AtFetch c a) (hint : c.pendInt = false)
+    (tbl : Labels) (cur : Nat) (l : String) (t : Nat) (bs : List Nat) (ht : tbl.find (lower l) = some t)
+    (ht8 : t < 256) (hpc : a.pc = BitVec.ofNat 8 cur)
+    (he : Ref.encode tbl cur (.jr l) = some bs) (hm : Holds a 0 bs) :
+    ∃ n, 0 < n ∧ AtFetch (Core.iter n c) { a with pc := BitVec.ofNat 8 t } := by
+  have hs := (relative_semantics a tbl cur l t ht ht8 hpc).1 bs he hm
+  simp only [↓reduceIte] at hs
+  have hc : Covered a := by
+    simp [Ref.encode, Ref.relative, ht] at he
+    subst he; simp only [Holds] at hm; obtain ⟨h0, -⟩ := hm
+    simp [Arch.rd] at h0
+    left; rw [h0]; decide
+  obtain ⟨n, a', hn, hstep, hf, _⟩ := isa_refines c a h hint hc
+  rw [hs] at hstep
+  cases hstep
+  exact ⟨n, hn, hf⟩
+
 end Emu2a.C02
